@@ -65,6 +65,12 @@ int main(int argc, char **argv) {
         if (i % 16 == 0) {
             au_verif_ub_flag = 0; r = pow_mod(a, b, n); wf = au_verif_ub_flag;
             std::printf("{\"k\":\"pow\",\"a\":%s,\"b\":%s,\"n\":%s,\"r\":%s,\"wrap\":%d}\n", W(a).c_str(), W(b).c_str(), W(n).c_str(), W(r).c_str(), wf);
+            // the power helper reduces its base itself: any 64-bit base, also many times the modulus
+            uint64_t nb = (rng.next() >> (24 + rng.next() % 36)) | 3, base = rng.next(), ex = rng.next() >> (rng.next() % 60 + 1);
+            if (i % 32 == 0) base = nb * 2 + (rng.next() % nb);
+            AUV_INFLIGHT("pow_mod base=%llu exp=%llu n=%llu", (unsigned long long)base, (unsigned long long)ex, (unsigned long long)nb);
+            au_verif_ub_flag = 0; r = pow_mod(base, ex, nb); wf = au_verif_ub_flag;
+            std::printf("{\"k\":\"pow\",\"a\":%s,\"b\":%s,\"n\":%s,\"r\":%s,\"wrap\":%d}\n", W(base).c_str(), W(ex).c_str(), W(nb).c_str(), W(r).c_str(), wf);
         }
     }
     return 0;
